@@ -17,7 +17,10 @@ PAT_TEST.update({30: "0..=2", 31: "1..=3", 32: "(1 | 4)"})
 PAT_BIND = {110: "0..=2", 111: "1..=3", 112: "(1 | 4)"}
 DOM = gen_dl.DOM
 
-NASTY_FIXED = ["__1", "__2", "__arg_pattern_", "__arg_pattern_1", "expr_replaced_", "expr_replaced_1"]
+# expr_replaced_1 is left out on purpose: whether the process-wide counter of "expr_replaced" stands at 1 when the
+# rule is desugared depends on the other programs of the compiler process (the other names are either per-rule
+# supplies or collide exactly when the counter is in its initial state, which the model evaluates)
+NASTY_FIXED = ["__1", "__2", "__arg_pattern_", "__arg_pattern_1", "expr_replaced_"]
 
 
 def tuplify(x):
@@ -465,7 +468,7 @@ def adversarialize(rng, p, k):
             expand_body(conj, feats)
         weights = {"__1": 3 if feats["wildcard"] else 1, "__2": 2 if feats["wildcard"] > 1 else 1,
                    "__arg_pattern_": 3 if feats["pat_test"] + feats["pat_bind"] else 1, "__arg_pattern_1": 1,
-                   "expr_replaced_": 3 if feats["same_clause_expr"] else 1, "expr_replaced_1": 1}
+                   "expr_replaced_": 3 if feats["same_clause_expr"] else 1}
         stem_based = rng.random() < (0.5 if reps else 0.25)
         if stem_based and len(vs) >= 2:
             # x_ / x_1 for a variable x of the rule: make the stems of this rule unique in the process so that
@@ -510,7 +513,11 @@ class SGen:
 
     def cond_if(self, avail):
         p = self.rng.choice(sorted(dl.PREDS))
-        return ("if", p, [self.rng.choice(avail) for _ in range(dl.PREDS[p][1])])
+        n = dl.PREDS[p][1]
+        ds = sorted(set(avail))
+        if n == 2 and len(ds) >= 2 and self.rng.random() < 0.85:
+            return ("if", p, self.rng.sample(ds, 2))
+        return ("if", p, [self.rng.choice(avail) for _ in range(n)])
 
     def pattern(self):
         """returns (term, bound variable or None)"""
